@@ -537,6 +537,125 @@ def gen_cases(rng, ncases, real):
     return cases
 
 
+def gen_restart(rng, nproc, real):
+    """RESTART scenario: sequences of 3..5 starts of the runtime in ONE process on the real machine, every start with its
+    own explicit --pika:process-mask (a drawn subset of the PUs the OS allows, different from the previous start's), bind
+    mode, thread count within the mask (only the LAST start of a sequence may be oversubscribed: a refused start ends the
+    sequence) and now and then a second pool.  Each start is an ordinary Case (env real, probe 2)."""
+    socks, osidx, allowed = real
+    seqs = []
+    for p in range(nproc):
+        k = rng.randint(3, 5)
+        seq = []
+        prev = None
+        for j in range(k):
+            for _ in range(20):
+                if rng.random() < 0.3 and prev is not None:
+                    # disjoint from (or complement of) the previous mask: nothing of the earlier start may be reused
+                    m = [osidx[i] for i in allowed if osidx[i] not in prev and rng.random() < 0.8]
+                else:
+                    q = rng.choice([0.25, 0.5, 0.75])
+                    m = [osidx[i] for i in allowed if rng.random() < q]
+                if m and m != prev:
+                    break
+            if not m or m == prev:
+                m = [osidx[allowed[(p + j) % len(allowed)]]]
+            prev = m
+            eff = len(m)
+            n = rng.choice([eff, eff, rng.randint(1, eff), rng.randint(1, eff), max(1, eff - 1)])
+            if j == k - 1 and rng.random() < 0.15:
+                n = eff + 1
+            pools = []
+            if 2 <= n <= eff and rng.random() < 0.25:
+                pools = [[rng.randrange(n)]]
+            c = Case('r%ds%d' % (p, j), socks, osidx, True, m, MODES[rng.randrange(len(MODES))], n, pools, env_kind='real', probe=2)
+            c.real_mask = allowed
+            seq.append(c)
+        seqs.append(seq)
+    return seqs
+
+
+def run_restart(ctx, r, h, drv, seqs, notes):
+    """one process per sequence (c15_bind RESTART ...); EVERY start is compared with the model's prediction for that
+    start's configuration alone and judged by the single-start monitors (one PU, inside THAT start's mask, distinct PUs,
+    reported PU = OS affinity seen by the worker itself).  Signatures C15:restart:<monitor>."""
+    env = {'PIKA_VERIF_C15': '1'}
+
+    def one(seq):
+        argv = ['RESTART']
+        for j, c in enumerate(seq):
+            argv += (['@@'] if j else []) + c.argv()
+        rc, out = sh([h] + argv, timeout=40 * len(seq) + 60, env=env)
+        got = {}
+        for ln in out.split('\n'):
+            if ln.startswith('OUT BIND '):
+                got[ln.split(' ')[2]] = ln
+        return argv, rc, out, got
+    with ThreadPoolExecutor(max_workers=2) as ex:
+        results = list(ex.map(one, seqs))
+    flat, lines = [], {}
+    for seq, (argv, rc, out, got) in zip(seqs, results):
+        r.count('restart_starts_per_process=%d' % len(seq))
+        stopped = False
+        for j, c in enumerate(seq):
+            if c.id in got:
+                lines[c.id] = got[c.id]
+                flat.append((c, seq, argv, j))
+                if 'err=' in got[c.id].split(' msg=')[0]:
+                    stopped = True      # a refused start ends the sequence (by construction only the last one may be)
+                continue
+            if not stopped:
+                # the process ended without reporting this start
+                r.hits.append(Hit('monitor', 'C15:restart:crash',
+                                  'start %d of %d in one process (%s) never reported: the process ended with rc=%d [%s]'
+                                  % (j + 1, len(seq), c.in_line(), rc, out[-300:].replace('\n', ' ')),
+                                  {'harness': 'c15_bind', 'env': env, 'argv': argv, 'case': [x.in_line() for x in seq]}))
+            else:
+                notes['restart_start_not_run_after_refused_start'] = notes.get('restart_start_not_run_after_refused_start', 0) + 1
+            break
+    if not flat:
+        return
+    ins = [c.in_line() for c, _, _, _ in flat]
+    rc2, mout = sh([drv], input='\n'.join(ins) + '\n', timeout=600)
+    mouts = [x for x in mout.split('\n') if x.startswith('OUT ')]
+    if rc2 != 0:
+        r.hits.append(Hit('tie', 'C15:model_driver', 'model driver failed on the restart cases rc=%d: %s' % (rc2, mout[-400:]), {}))
+    impl = [canon(lines[c.id]) for c, _, _, _ in flat]
+    diffs, ncmp = diff_lines(ctx, impl, mouts)
+    r.evaluations += len(flat)
+    r.traces += ncmp - len(diffs)
+    byid = {c.id: (c, seq, argv, j) for c, seq, argv, j in flat}
+    for c, seq, argv, j in flat:
+        line = lines[c.id]
+        d = parse_out(line)
+        r.count('restart_start_index=%d' % j)
+        r.count('restart_mode=%s' % c.bind)
+        r.count('restart_result=%s' % ('ok' if 'err' not in d else d['err']))
+        if j >= 1 and 'err' not in d and int(d.get('n', '0')) >= 2:
+            r.nontrivial('restart ' + ' / '.join(x.in_line().split(' ', 3)[3].split(' use=', 1)[1] for x in seq[:j + 1]))
+        rep = {'harness': 'c15_bind', 'env': env, 'argv': argv, 'start_index': j, 'case': [x.in_line() for x in seq], 'observed': line}
+        for sig, text in monitor(c, line):
+            if sig == 'note':
+                notes['restart_' + text] = notes.get('restart_' + text, 0) + 1
+                continue
+            r.hits.append(Hit('monitor', 'C15:restart:' + sig.split(':')[-1],
+                              'start %d of %d in ONE process (earlier starts: %s): %s [%s] observed: %s'
+                              % (j + 1, len(seq), '; '.join('mask=%s bind=%s n=%s' % (x.mask, x.bind, x.n) for x in seq[:j]) or 'none',
+                                 text, c.in_line(), line[:400]), rep))
+        if 'probe_timeout' in d:
+            notes['restart_probe_timeout'] = notes.get('restart_probe_timeout', 0) + 1
+    for (k, a, b) in diffs[:20]:
+        c, seq, argv, j = byid.get(k[1], (None, [], None, -1))
+        r.hits.append(Hit('corr', 'C15:restart:correspondence',
+                          'start %d of a process that starts the runtime %d times: implementation and model differ on %s: impl [%s] model [%s]'
+                          % (j + 1, len(seq), c.in_line() if c else k, a, b),
+                          {'harness': 'c15_bind', 'argv': argv, 'case': [x.in_line() for x in seq], 'impl': a, 'model': b}))
+    c, seq, argv, j = flat[min(1, len(flat) - 1)]
+    r.sample({'restart_process': [x.in_line() for x in seq], 'observed': [lines.get(x.id, '-')[:300] for x in seq]})
+    r.extra['restart_processes'] = len(seqs)
+    r.extra['restart_starts_compared'] = len(flat)
+
+
 def run(ctx):
     r = Result()
     r.rule = ('PROC/DIFF: (topology [sockets x cores x SMT, regular and irregular; OS numbering identity / "Intel" / random '
@@ -544,7 +663,13 @@ def run(ctx):
               'process mask, binding mode, thread count 1..|mask|+1 or cores/all, pool partition) drawn from VERIF_SEED; '
               'one process of the real runtime per case under HWLOC_XMLFILE / HWLOC_SYNTHETIC / the real machine; the '
               'extracted model runs on the same inputs and the full output line (workers: mask, reported PU, pool; pools; '
-              'error class; the converted logical process mask pm=) is compared; non-trivial = accepted with >= 2 workers and (>= 2 sockets or a partial mask or >= 2 pools)')
+              'error class; the converted logical process mask pm=) is compared; non-trivial = accepted with >= 2 workers and (>= 2 sockets or a partial mask or >= 2 pools)'
+              '. RESTART: 10 processes (thorough 150) on the real machine each start the runtime 3..5 times (start / report / finalize / '
+              'stop), every start with its own drawn --pika:process-mask (subset of the allowed PUs, different from the previous '
+              'start\'s, 30 % disjoint from it), bind mode, thread count within the mask (the last start may be oversubscribed) and '
+              'sometimes a second pool; EVERY start is compared with the model\'s prediction for that start\'s configuration alone '
+              'and judged by the single-start monitors (sched_getaffinity inside every worker); non-trivial = a second or later '
+              'start accepted with >= 2 workers')
     ctx.build_pika()
     drv = ctx.build_model('C15', 'ExtractC15.v', 'drv_c15.ml')
     h = ctx.build_harness('c15_bind', 'c15_bind.cpp')
@@ -663,6 +788,10 @@ def run(ctx):
                           'implementation and model differ on %s: impl [%s] model [%s]' % (c.in_line() if c else k, a, b),
                           {'harness': 'c15_bind', 'case': c.in_line() if c else None, 'argv': c.argv() if c else None,
                            'impl': a, 'model': b}))
+    # ---------------- RESTART: several starts of the runtime in one process, each with its own process mask
+    if real is not None:
+        rr = random.Random(ctx.seed * 104729 + 1515)
+        run_restart(ctx, r, h, drv, gen_restart(rr, 10 if ctx.tier == 'quick' else 150, real), notes)
     for c in cases[:1] + cases[60:62] + cases[-2:]:
         r.sample({'input': c.in_line(), 'observed': outs[c.id][:300]})
     for k, v in sorted(notes.items()):
